@@ -13,6 +13,7 @@ package main
 // of the inductive definition; they are part of the trusted base and listed in the evidence.
 
 import (
+	"sync"
 	"fmt"
 	"go/ast"
 	"go/token"
@@ -368,11 +369,70 @@ func (x *Exec) wfStructuralStore(s *State, a, b, o, n, idx *Term, p token.Pos) b
 			ob.Result = r
 			x.sideObls = append(x.sideObls, ob)
 			x.structRoot[b] = root
-			s.assume(And(Eq(wfpT(b, o, n), wfpT(root, o, n)), bndEquiv(x, b, o, n, func(k *Term) *Term { return bndT(root, o, n, k) })))
+			eq := And(Eq(wfpT(b, o, n), wfpT(root, o, n)), bndEquiv(x, b, o, n, func(k *Term) *Term { return bndT(root, o, n, k) }))
+			storeEquivMu.Lock()
+			storeEquivHyp[eq] = b
+			storeEquivMu.Unlock()
+			s.assume(eq)
 			return true
 		}
 	}
 	return false
+}
+
+// store-equivalence hypotheses ("array b decodes like its structural root") by array: the solver variants drop
+// those whose array no other hypothesis or the goal decodes (intermediate versions of a multi-cell record update)
+var (
+	storeEquivMu  sync.Mutex
+	storeEquivHyp = map[*Term]*Term{}
+)
+
+// dropUnusedStoreEquiv removes store-equivalence hypotheses about arrays that are decoded (wfp/bnd) nowhere else
+func dropUnusedStoreEquiv(hyps []*Term, goal *Term) ([]*Term, int) {
+	storeEquivMu.Lock()
+	defer storeEquivMu.Unlock()
+	if len(storeEquivHyp) == 0 {
+		return hyps, 0
+	}
+	used := map[*Term]bool{}
+	seen := map[*Term]bool{}
+	var rec func(t *Term)
+	rec = func(t *Term) {
+		if seen[t] {
+			return
+		}
+		seen[t] = true
+		if t.K == TApp && (t.Op == "bnd" || t.Op == "wfp") {
+			used[t.Args[0]] = true
+		}
+		for _, a := range t.Args {
+			rec(a)
+		}
+	}
+	any := false
+	for _, h := range hyps {
+		if _, ok := storeEquivHyp[h]; ok {
+			any = true
+			continue
+		}
+		rec(h)
+	}
+	if !any {
+		return hyps, 0
+	}
+	if goal != nil {
+		rec(goal)
+	}
+	var out []*Term
+	dropped := 0
+	for _, h := range hyps {
+		if b, ok := storeEquivHyp[h]; ok && !used[b] {
+			dropped++
+			continue
+		}
+		out = append(out, h)
+	}
+	return out, dropped
 }
 
 func hasIte(t *Term) bool {
